@@ -203,6 +203,10 @@ def r5_helpers(ctx):
 
 
 def run(ctx):
+    from ..report import Relabel
+    from .c02 import r3_skip_whitelist
+
+    r3_skip_whitelist(Relabel(ctx, 'C18.R6'))
     r1_r2(ctx)
     r3_never_widens(ctx)
     r4_disabled_untouched(ctx)
